@@ -572,7 +572,12 @@ def c19_check(ctx):
         c = gen.cfg(scripted=scripted, auth=auth)
         prof = dict(versions=[5, 4], qos=[0, 1, 2], retain=0.4, topics=[["a"], ["a", "b"], ["b"]], filters=[["#"], ["a", "#"], ["b"]], p_clean=1.0,
                     weights=dict(subscribe=3, publish=10, connect=1, disconnect=0, unsubscribe=0), len=(8, 16))
-        hs.append(dict(name="C19-%d-%d" % (ctx.seed, i), cfg=c, ops=gen.routing_history(rng, prof)))
+        ops = gen.routing_history(rng, prof)
+        if auth == "allow" and not any(h["on_read"] for h in scripted) and rng.random() < 0.4 and ops and ops[0]["op"] == "connect":
+            # the last hook of the stack is attached to the running broker, while a packet of the first connection is handled
+            c["late"] = 1
+            ops.insert(1, gen.op("late_hook", k=ops[0]["k"]))
+        hs.append(dict(name="C19-%d-%d" % (ctx.seed, i), cfg=c, ops=ops))
     traces = drive(ctx, hs, "c19")
     comp, lines, states = validate(ctx, traces, ["C19"], "c19")
     report(ctx, comp, "C19")
